@@ -147,6 +147,13 @@ let check_tokens (cfg : econfig) (ops : eop list) (tr : tok list) : unit =
           if o.o_topic <> expect then bad "C06" "event of run %d state %d sent to the wrong topic" (ni o.o_run) st
         end;
         if eff a then sent := o :: !sent
+      | TRecv e when on "C05" && (match e.e_topic with TConn _ -> false | _ -> true) ->
+        (* what a consumer is handed is what was published: topic, run, status, run state and version of a committed write *)
+        if not (List.exists (fun r -> let o = route N0 r in
+            o.o_topic = e.e_topic && o.o_run = e.e_run && o.o_type = e.e_type && o.o_state = e.e_state && o.o_ver = e.e_ver) !writes) then
+          bad "C05" "a consumer received an event (topic %s, run %d, version %d) that matches no committed write: the published content was altered"
+            (match e.e_topic with TStatus z -> "status " ^ string_of_int (zi z) | TDelete -> "delete" | TRunStateChange -> "run-state-change" | TConn _ -> "connector")
+            (ni e.e_run) (zi e.e_ver)
       | TDelOut (id, a) ->
         if on "C05" && eff a then begin
           match List.nth_opt !writes (ni id - 1) with
@@ -381,7 +388,7 @@ let check_tokens (cfg : econfig) (ops : eop list) (tr : tok list) : unit =
               | Some (ROk | RErrAfter) when !lost && unit_of_op <> None -> bad "C11" "adapter call succeeded after the lease was lost"
               | _ -> ()))) seg);
     (* C09: the invariant itself — after every operation at most one run of a foreign ID is unfinished *)
-    (if on "C09" then begin
+    (if on "C09" || on "C20" then begin
        List.iter (function
          | TStore (_, r, a) when eff a -> Hashtbl.replace run_state r.r_run (r.r_fid, r.r_state)
          | _ -> ()) seg;
@@ -390,12 +397,12 @@ let check_tokens (cfg : econfig) (ops : eop list) (tr : tok list) : unit =
        Hashtbl.iter (fun fid runs -> match List.sort compare runs with
          | a :: b :: _ -> if not (Hashtbl.mem c09_reported fid) then begin
              Hashtbl.replace c09_reported fid ();
-             bad "C09" "runs %d and %d of foreign ID %d are both unfinished" (ni a) (ni b) (ni fid) end
+             bad (if on "C09" then "C09" else "C20") "runs %d and %d of foreign ID %d are both unfinished (a run was created while the previous one is unfinished)" (ni a) (ni b) (ni fid) end
          | _ -> ()) per_fid;
        (match op with
         | OTrigger _ ->
           let wrote = List.exists (function TStore (_, _, a) -> eff a | _ -> false) seg in
-          if wrote && List.exists (function TLookup (KLT, _, (RErr | RErrAfter | RCancel), _) -> true | _ -> false) seg then
+          if on "C09" && wrote && List.exists (function TLookup (KLT, _, (RErr | RErrAfter | RCancel), _) -> true | _ -> false) seg then
             bad "C09" "Trigger wrote a run although the lookup of the latest run failed"
         | _ -> ())
      end);
